@@ -4,6 +4,8 @@ package bufcheckserverhandle
 
 import (
 	"context"
+
+	"github.com/bufbuild/buf/private/bufpkg/bufprotosource"
 )
 
 // C03-E: element deletions (enum / extension / message / service / oneof / rpc / file / package rules).
@@ -177,7 +179,7 @@ func VerifLemma_C03E_OneofRPC() {
 			ps.methods = append(ps.methods, &vbMethod{name: n, svc: ps})
 		} else {
 			synthetic[i] = verifNondetBool()
-			pm.oneofs = append(pm.oneofs, &vbOneof{name: n, synthetic: synthetic[i]})
+			pm.oneofs = append(pm.oneofs, &vbOneof{name: n, synthetic: synthetic[i], fields: []bufprotosource.Field{&vField{number: i + 1, name: "m", proto3Optional: synthetic[i]}}})
 		}
 	}
 	for i := 0; i < nc; i++ {
@@ -187,7 +189,7 @@ func VerifLemma_C03E_OneofRPC() {
 		if isRPC {
 			cs.methods = append(cs.methods, &vbMethod{name: n, svc: cs})
 		} else {
-			cm.oneofs = append(cm.oneofs, &vbOneof{name: n, synthetic: verifNondetBool()})
+			cm.oneofs = append(cm.oneofs, &vbOneof{name: n, synthetic: verifNondetBool(), fields: []bufprotosource.Field{&vField{number: i + 1, name: "m"}}})
 		}
 	}
 	rw := &vRW{}
@@ -217,7 +219,9 @@ func VerifLemma_C03E_OneofRPC() {
 }
 
 // VerifLemma_C03E_FileNoDelete: FILE_NO_DELETE over 1..2 previous and 0..2 current files with symbolic paths:
-// one annotation per previous path that is gone.
+// one annotation per previous path that is gone. Every file carries an arbitrary IsImport flag: the breaking handlers
+// treat every file of the request alike (imports are excluded, if configured, before the handlers run - client.go),
+// so the flag must not change the result.
 func VerifLemma_C03E_FileNoDelete() {
 	nl := verifParam("NL")
 	np := verifNondetChoice(2) + 1
@@ -229,13 +233,13 @@ func VerifLemma_C03E_FileNoDelete() {
 		p := vbNondetName(nl)
 		vbDistinctFrom(p, prevPaths[:i])
 		prevPaths[i] = p
-		req.prev = append(req.prev, &vFile{path: p})
+		req.prev = append(req.prev, &vFile{path: p, isImport: verifNondetBool()})
 	}
 	for i := 0; i < nc; i++ {
 		p := vbNondetName(nl)
 		vbDistinctFrom(p, curPaths[:i])
 		curPaths[i] = p
-		req.cur = append(req.cur, &vFile{path: p})
+		req.cur = append(req.cur, &vFile{path: p, isImport: verifNondetBool()})
 	}
 	rw := &vRW{}
 	err := handleBreakingFileNoDelete(context.Background(), rw, req)
